@@ -1,7 +1,8 @@
 """C04 - Damaged or substituted repository objects are never restored silently."""
-from specs import restore
+from specs import restore, snapbody
 
 LEVEL = 'proof'
-UNITS = [restore.download_chunk_unit('C04', restore.c04_download_chunk_post('C04'))]
+UNITS = [restore.download_chunk_unit('C04', restore.c04_download_chunk_post('C04')),
+         snapbody.download_snapshot_unit('C04'), snapbody.decrypt_body_unit('C04')]
 TRUSTED = []
 ASSUMPTIONS = []
